@@ -239,6 +239,9 @@ func cmdCheck(args []string) int {
 	lemObls, lemErrs := eng.lemmaObligations(*prop)
 	allObls = append(allObls, lemObls...)
 
+	if data, err := os.ReadFile(filepath.Join(*verif, "solver_hints.json")); err == nil {
+		json.Unmarshal(data, &solverHints)
+	}
 	timeout := 10
 	if *tier == "thorough" {
 		timeout = 60
@@ -427,7 +430,37 @@ func cmdCheck(args []string) int {
 		}
 	}
 	sort.Strings(functions)
+	if os.Getenv("GOVC_WRITE_HINTS") != "" {
+		// merge: obligations decided by a solver other than the first one
+		for _, o := range allObls {
+			k := shortFn(o.Fn) + "/" + o.Name
+			base := strings.TrimSuffix(o.Solver, " (retry)")
+			if !o.ExpectSat && o.Status == "unsat" && (base == "z3" || base == "cvc5") {
+				solverHints[k] = base
+			} else if _, had := solverHints[k]; had && o.Status == "unsat" && base == "z3-new" {
+				delete(solverHints, k)
+			}
+		}
+		data, _ := json.MarshalIndent(solverHints, "", " ")
+		os.WriteFile(filepath.Join(*verif, "solver_hints.json"), data, 0o644)
+	}
+	// the slowest obligations of this run (how far the proofs are from the solver budget)
+	var slow []map[string]interface{}
+	{
+		sorted := append([]*Obligation(nil), allObls...)
+		sort.Slice(sorted, func(i, j int) bool { return sorted[i].Secs > sorted[j].Secs })
+		for _, o := range sorted {
+			if len(slow) >= 8 {
+				break
+			}
+			if o.ExpectSat {
+				continue // covers run with a 2 s budget and pass when not refuted
+			}
+			slow = append(slow, map[string]interface{}{"obligation": shortFn(o.Fn) + "/" + o.Name, "seconds": o.Secs, "solver": o.Solver, "answer": o.Status})
+		}
+	}
 	extra := map[string]interface{}{
+		"slowest_obligations": slow, "solver_timeout_seconds": timeout,
 		"functions_under_contract": functions, "obligations_by_backend": bySolver, "solver_seconds": solverSecs,
 		"load_seconds": loadSecs, "other_properties_failing": otherFailing, "known_findings_hit": knownHit,
 		"all_obligations": len(allObls), "audited_dead_paths": deadNoted, "engine": "govc (go/ssa naive form -> SMT-LIB; z3-new 5.1, z3 4.8.12, cvc5 1.0)",
